@@ -88,6 +88,29 @@ def run(ctx):
                 beh = m.pop("behaviour", None)
                 ctx.violation(hotcommon.classify_c05(m) or f"C05/WR:{m.get('what', '?')}", f"{m.get('what')} (random DAG, front {m.get('front')}, step {m.get('step')})",
                               {"mismatch": m, "behaviour": beh})
+    # bursts: events arrive while the reloader is busy and while callers register new assets; the thread's hook events
+    # must still be a run of Trace_Thread.tla (cache messages are drained before EVERY batch of events)
+    import os
+    import checks.c08 as c08
+    if vlib.hooks_present():
+        for mode in ("plain", "cycle"):
+            res = c08.stress(ctx, mode, ctx.seed, 2, 120)
+            if res is None:
+                continue
+            out, rep = res
+            th = out + ".thread"
+            verdict, tr, detail = vlib.trace_check("Trace_Thread", "Trace_Thread.cfg", th, name=f"c05-burst-{mode}", timeout=900, xmx="6g")
+            if verdict == "error":
+                raise vlib.ToolError(f"Trace_Thread validation failed to run: {detail}")
+            if verdict != "accepted":
+                keep = th + ".rejected"
+                os.replace(th, keep)
+                ctx.violation(f"C05/burst-thread-trace:{mode}", f"under bursts of events the reloader thread's hook events are not a run of Trace_Thread.tla ({verdict}: {detail[:300]})",
+                              dict(mode=mode, trace_file=keep))
+            else:
+                ctx.cov["traces_validated_against_impl"] += 1
+                os.remove(th)
+            os.remove(out)
     hotcommon.fs_replay(ctx, thorough)
     worlds.binding_demo(ctx, "W3", 2)
     ctx.cov["rule"] = ("histories generated by TLC from AssetCache.tla over worlds W3 (diamond), W4 (indirection/rewiring), W5 (directories), "
